@@ -550,6 +550,73 @@ def rule_signature(chk, facts):
                'treated alike' % (hn, '; '.join(bad)[:160]))
 
 
+def _lin(f, e, depth=0):
+    """Linear form of e over the symbols 'R' (RadixBase) and 'D' (digit value of the marker letter Ch:
+    DigitVal(Ch, ..) or Ch - 'A' + 10): dict symbol -> coefficient, 1 -> constant; None if not linear."""
+    e = nocast(e)
+    c = const_val(e)
+    if c is not None:
+        return {1: c}
+    if e[0] in ('g', 'gs') and e[1] == 'RadixBase':
+        return {'R': 1, 1: 0}
+    if e[0] == 'p' and e[1] == 'Ch':
+        return {'D': 1, 1: 55}            # Ch = D + 'A' - 10
+    if e[0] == 'call' and callee_name(e) == 'DigitVal' and e[2] and nocast(e[2][0]) == ('p', 'Ch'):
+        return {'D': 1, 1: 0}
+    if e[0] == 'l' and depth < 4:
+        ds = [m for b, i, ln, m in f.nodes() if (m[0] == 'decl' and m[1] == e[1] and m[2] is not None) or
+              (is_assign(m) and strip(m[2]) == e)]
+        if len(ds) == 1:
+            return _lin(f, ds[0][2] if ds[0][0] == 'decl' else ds[0][3], depth + 1)
+        return None
+    if e[0] == 'b' and e[1] in ('+', '-'):
+        a, b = _lin(f, e[2], depth), _lin(f, e[3], depth)
+        if a is None or b is None:
+            return None
+        out = dict(a)
+        for k, v in b.items():
+            out[k] = out.get(k, 0) + (v if e[1] == '+' else -v)
+        return out
+    return None
+
+
+def rule_radix_marker(chk, facts):
+    chk.rule('C08-R9', 'intformat.c: a letter serves as number-system marker (Intel suffix B/O/Q/H, C prefix 0x/0b) exactly '
+             'when it is not itself a digit of the current RADIX: every comparison between RadixBase and the marker '
+             'letter\'s digit value changes its outcome between "digit value = RadixBase - 1" (highest digit) and '
+             '"digit value = RadixBase"', min_instances=1)
+    u = facts.unit('intformat.c')
+    n = 0
+    for f in u.funcs.values():
+        if f.file != 'intformat.c':
+            continue
+        for b, i, ln, m in f.nodes():
+            if m[0] != 'b' or m[1] not in ('<', '<=', '>', '>='):
+                continue
+            L, Rr = _lin(f, m[2]), _lin(f, m[3])
+            if L is None or Rr is None:
+                continue
+            d = dict(L)
+            for k, v in Rr.items():
+                d[k] = d.get(k, 0) - v
+            if not d.get('R') or not d.get('D'):
+                continue
+            n += 1
+            ok = d['R'] == -d['D'] and abs(d['D']) == 1
+
+            def val(t, d=d, op=m[1]):          # truth of the comparison at D - R == t
+                x = d['D'] * t + d.get(1, 0)
+                return {'<': x < 0, '<=': x <= 0, '>': x > 0, '>=': x >= 0}[op]
+            ok = ok and val(-1) != val(0)
+            chk.ob('C08-R9', 'intformat.c:%s:%s' % (f.name, show(m)[:60]), ok, f.loc(ln),
+                   'boundary between the highest digit and the first non-digit' if ok else
+                   'the comparison %s does not separate "letter is the highest digit of the radix" from "letter is no '
+                   'digit": with RADIX = digit value + 1 (e.g. RADIX 18 and the suffix H) the letter is still taken as a '
+                   'marker and the constant is evaluated in the wrong base' % show(m))
+    if n < 1:
+        raise AnalysisBroken('no radix/marker comparison found in intformat.c')
+
+
 def run(chk, facts, info):
     rule_operators(chk, facts)
     rule_signature(chk, facts)
@@ -558,6 +625,7 @@ def run(chk, facts, info):
     rule_division(chk, facts)
     rule_unused(chk, facts)
     rule_funcargs(chk, facts)
+    rule_radix_marker(chk, facts)
     chk.note('Decided: operator and function tables against the manual (parsed from doc/assembler-usage.md at run '
              'time), handler dispatch, documented domain guards, division guards, unused results, bounds of string '
              'positions. Not decided: numerical results and literal syntax (e.g. FIRSTBIT(1)).')
